@@ -95,8 +95,10 @@ use vcore::{
 
 // ------------------------------------------------------------------ the fixed script
 
-const GAS_LIMIT: u64 = 1_500;
-const MAX_TRACE: usize = 4_000;
+/// Unit gas schedule: the longest loop-free program (4 calls of A + subroutine) needs 32 gas;
+/// everything that loops is cut by OutOfGas after at most GAS_LIMIT instructions.
+const GAS_LIMIT: u64 = 40;
+const MAX_TRACE: usize = 64;
 
 /// instruction indices (from $is) of the fixed parts
 const PRELUDE: usize = 9;
@@ -111,7 +113,7 @@ const R_ACC: u8 = 0x12;
 const R_LINK: u8 = 0x13;
 
 const LETTERS: [&str; 20] = [
-    "noop", "inc", "log", "ret", "callA", "jal", "dec", "back1c", "selfloop", "back2", "fwd", "tr", "rvrt", "panic", "callB", "callA5gas",
+    "noop", "inc", "log", "ret", "callA", "jal", "dec", "back1c", "selfloop", "back2", "fwd", "tr", "rvrt", "panic", "callB", "callA1gas",
     "retd", "clr", "logd", "aloc",
 ];
 
@@ -138,7 +140,7 @@ fn letter_ins(l: usize, idx: usize) -> Instruction {
         // store to address 0: MemoryOwnership
         "panic" => op::sw(RegId::ZERO, RegId::ONE, 0),
         "callB" => op::call(r::CALL_B, RegId::ZERO, r::ASSET_BASE, RegId::CGAS),
-        "callA5gas" => op::call(r::CALL_A, RegId::ZERO, r::ASSET_BASE, R_AMT),
+        "callA1gas" => op::call(r::CALL_A, RegId::ZERO, r::ASSET_BASE, RegId::ONE),
         "retd" => op::retd(r::PATTERN, R_AMT),
         "clr" => op::move_(R_CNT, RegId::ZERO),
         "logd" => op::logd(RegId::ZERO, RegId::ZERO, r::PATTERN, R_AMT),
@@ -150,8 +152,8 @@ fn letter_ins(l: usize, idx: usize) -> Instruction {
 fn code_a() -> Vec<Instruction> {
     vec![
         op::log(RegId::ONE, RegId::ZERO, RegId::ZERO, RegId::ZERO),
-        // state[memory[0..32]] = 1
-        op::sww(RegId::ZERO, 0x14, RegId::ONE),
+        // storage effect: mints 1 coin of A's sub-asset memory[0..32]
+        op::mint(RegId::ONE, RegId::ZERO),
         op::ret(RegId::ONE),
     ]
 }
@@ -165,9 +167,14 @@ struct Env {
 }
 
 fn env() -> Env {
+    // unit gas schedule (every instruction 1 gas + 1 per unit of the size-dependent ones): keeps the
+    // out-of-gas loops short; the debugger does not look at the schedule
+    let mut params = fuel_tx::ConsensusParameters::standard();
+    params.set_gas_costs(fuel_tx::GasCosts::unit());
     let cfg = WorldCfg {
         code_a: code_a(),
         code_b: code_b(),
+        params,
         ..WorldCfg::default()
     };
     Env { world: World::new(cfg) }
@@ -680,8 +687,8 @@ struct Acc {
     outcomes: BTreeMap<String, u64>,
     fps: HashSet<u64>,
     viols: BTreeMap<String, (String, Value, u64)>,
-    /// (score, sample)
-    samples: Vec<(u64, Value)>,
+    /// outcome class -> (score, sample)
+    samples: BTreeMap<String, (u64, Value)>,
 }
 
 fn run_program(env: &Env, seq: &[u64], acc: &mut Acc) {
@@ -720,27 +727,42 @@ fn run_program(env: &Env, seq: &[u64], acc: &mut Acc) {
             e.2 += 1;
         }
     }
-    // sample candidates: prefer programs with a call, a repeated visit and several events
+    // sample candidates (one per outcome class): all breakpoints armed; prefer events inside A and revisits
     let full = Mode::Breakpoints((1u32 << p.locs.len()) - 1, (1u32 << code_a().len()) - 1);
     let rep = check_case(env, &p, &refs, &full);
-    let score = rep.event_locs.len() as u64
+    let distinct: HashSet<Loc> = rep.event_locs.iter().copied().collect();
+    let score = 10 * distinct.len() as u64
         + if rep.event_locs.iter().any(|l| l.0 == A) { 100 } else { 0 }
-        + if repeated && refs.trace[0].len() < 60 { 50 } else { 0 }
-        + if label == "return" { 25 } else { 0 };
-    if rep.violation.is_none() && acc.samples.iter().all(|(s, _)| *s < score) {
-        acc.samples = vec![(
+        + if repeated { 50 } else { 0 }
+        + 64u64.saturating_sub(rep.event_locs.len() as u64);
+    let best = acc.samples.entry(label.clone()).or_insert((0, Value::Null));
+    if rep.violation.is_none() && best.0 < score {
+        *best = (
             score,
             json!({
                 "program": p.names,
                 "mode": describe_mode(&p, &full),
-                "uninterrupted": {"outcome": label, "steps": refs.trace[0].len(), "receipts": refs.fin[0].receipts.len()},
-                "events_tx1": rep.event_locs.iter().map(loc_str).collect::<Vec<_>>(),
+                "uninterrupted": {"outcome": label, "steps": refs.trace[0].len(), "receipts": refs.fin[0].receipts.len(), "final_state": format!("{:?}", refs.fin[0].state)},
+                "events_tx1": compact(&rep.event_locs),
                 "events_tx2": rep.info[1].events,
                 "missed_visits": rep.info[0].missed + rep.info[1].missed,
                 "result": "final state, receipts, tx, storage equal to the uninterrupted run; every event state equals the trace state before the instruction",
             }),
-        )];
+        );
     }
+}
+
+/// run-length rendering of an event sequence
+fn compact(locs: &[Loc]) -> Vec<String> {
+    let mut out: Vec<(String, usize)> = vec![];
+    for l in locs {
+        let s = loc_str(l);
+        match out.last_mut() {
+            Some((p, n)) if *p == s => *n += 1,
+            _ => out.push((s, 1)),
+        }
+    }
+    out.into_iter().map(|(s, n)| if n == 1 { s } else { format!("{s} x{n}") }).collect()
 }
 
 fn explore(ctx: &Ctx) {
@@ -811,18 +833,20 @@ fn explore(ctx: &Ctx) {
                 ctx.violation(key.clone(), what, case);
                 tot.viols.entry(key).or_insert_with(|| (String::new(), Value::Null, 0)).2 += n;
             }
-            for s in a.samples {
-                tot.samples.push(s);
+            for (label, s) in a.samples {
+                let best = tot.samples.entry(label).or_insert((0, Value::Null));
+                if best.0 < s.0 {
+                    *best = s;
+                }
             }
         },
     );
     ctx.evals(tot.cases);
     ctx.outcomes_merge(&tot.outcomes);
-    // samples: the best-scoring ones, at most one per score class
-    tot.samples.sort_by(|a, b| b.0.cmp(&a.0));
-    tot.samples.dedup_by_key(|s| s.0 / 25);
-    for (_, s) in tot.samples.iter().take(6) {
-        ctx.sample(s.clone());
+    for (_, (score, s)) in tot.samples.iter() {
+        if *score > 0 {
+            ctx.sample(s.clone());
+        }
     }
     if tot.skipped > 0 {
         ctx.cap(format!("time budget: {} of {} programs not run (programs are enumerated shortest first)", tot.skipped, nprog));
@@ -871,6 +895,25 @@ fn replay(case: &Value, ctx: &Ctx) {
     }
 }
 
+/// Development aid: `C32_SHOW=4,4,11 c32` prints the uninterrupted trace of one program.
+fn show(spec: &str) {
+    let seq: Vec<u64> = spec.split(',').filter(|x| !x.is_empty()).map(|x| x.trim().parse().expect("letter index")).collect();
+    let env = env();
+    let p = prog(&env, &seq);
+    let refs = refs(&env, &p);
+    println!("program {:?}: {} | second tx {}", p.names, outcome_label(&refs.fin[0]), outcome_label(&refs.fin[1]));
+    for (i, t) in refs.trace[0].iter().enumerate() {
+        println!("  step {i}: {} $ggas={} $cgas={} receipts={}", loc_str(&t.loc), t.regs[9], t.regs[10], t.nrec);
+    }
+    for r in &refs.fin[0].receipts {
+        println!("  {r:?}");
+    }
+}
+
 fn main() {
+    if let Ok(spec) = std::env::var("C32_SHOW") {
+        show(&spec);
+        return
+    }
     run_check("C32", Level::Exploration, explore, replay)
 }
